@@ -218,7 +218,9 @@ fn wide_bits_cases(deadline: &Deadline) -> Stats {
 /// rows (every answer differs from the one before) against loop / repeat / while bodies whose rows
 /// read it without mentioning a counter or a function.
 fn moving_device_cases(deadline: &Deadline) -> Stats {
-    let sigs = vec![Sig::inp("P0", 16, 0), Sig::inp("P1", 16, 0), Sig::out("Q", 16), Sig::out("R", 16)];
+    // (the output n answers 3 at every call: in the enumerated spaces the outputs a, i, n answer 201..203,
+    // which puts every bound read from them beyond the reference's budget)
+    let sigs = vec![Sig::inp("P0", 16, 0), Sig::inp("P1", 16, 0), Sig::out("Q", 16), Sig::out("R", 16), Sig::out("n", 16)];
     let l = |n: i64| Entry::Lit(n, Radix::Dec);
     let p = |e: Expr| Entry::Paren(e);
     let q = || name("Q");
@@ -228,6 +230,9 @@ fn moving_device_cases(deadline: &Deadline) -> Stats {
         ("one-row loop inside a loop", vec![Stmt::Loop("j".into(), lit(2), vec![Stmt::Loop("i".into(), lit(2), vec![Stmt::Row(vec![p(bin(BinOp::Mul, q(), name("R"))), l(3), Entry::X, Entry::X])])])]),
         ("while polling R, one row", vec![Stmt::While(bin(BinOp::Lt, name("R"), lit(4)), vec![Stmt::Row(vec![p(q()), p(name("R")), Entry::X, Entry::X])]), Stmt::Row(vec![l(9), p(q()), Entry::X, Entry::X])]),
         ("repeat with a clock row reading Q", vec![Stmt::Repeat(lit(3), vec![p(q()), Entry::X, Entry::X, Entry::X]), Stmt::Repeat(lit(2), vec![Entry::C, p(q()), Entry::X, Entry::X])]),
+        ("repeat bound read from the output n", vec![Stmt::Repeat(name("n"), vec![p(name("n")), l(1), Entry::X, Entry::X]), Stmt::Repeat(bin(BinOp::Sub, name("n"), lit(1)), vec![l(2), p(name("n")), Entry::X, Entry::X])]),
+        ("loop bound n+1, repeat(n) inside a loop over n", vec![Stmt::Loop("i".into(), bin(BinOp::Add, name("n"), lit(1)), vec![Stmt::Row(vec![p(name("i")), p(name("n")), Entry::X, Entry::X])]), Stmt::Loop("n".into(), lit(2), vec![Stmt::Repeat(bin(BinOp::Add, name("n"), lit(1)), vec![p(name("n")), l(3), Entry::X, Entry::X])]), Stmt::Row(vec![p(name("n")), l(4), Entry::X, Entry::X])]),
+        ("let n after a repeat(n)", vec![Stmt::Repeat(name("n"), vec![l(5), p(name("n")), Entry::X, Entry::X]), Stmt::Let("n".into(), lit(1)), Stmt::Repeat(name("n"), vec![l(6), p(name("n")), Entry::X, Entry::X])]),
         ("let outside, row reads variable and device", vec![Stmt::Let("a".into(), lit(7)), Stmt::Repeat(lit(3), vec![p(bin(BinOp::Add, name("a"), q())), p(name("a")), Entry::X, Entry::X])]),
     ];
     par_range("a device that answers differently at every call x loop / repeat / while bodies of one row that read it", progs.len() as u64 * 2, deadline, |idx, st| {
@@ -235,7 +240,7 @@ fn moving_device_cases(deadline: &Deadline) -> Stats {
         let ov = idx % 2 == 0;
         let prog = Program { header: vec!["P0".into(), "P1".into(), "Q".into(), "R".into()], body: body.clone() };
         let text = text(&prog);
-        let script: Vec<Step> = (0..30i64).map(|j| Step::Ans(vec![("Q".into(), V::Num(10 + 3 * j)), ("R".into(), V::Num(j))])).collect();
+        let script: Vec<Step> = (0..40i64).map(|j| Step::Ans(vec![("Q".into(), V::Num(10 + 3 * j)), ("R".into(), V::Num(j)), ("n".into(), V::Num(3))])).collect();
         let r = ref_run_fuel(&prog, &sigs, &script, 10_000, 40);
         assert!(r.end == RefEnd::Done, "moving device case '{what}' does not finish in the reference: {:?}", r.end);
         st.evals += 1;
